@@ -119,38 +119,45 @@ def setter_obj(s):
     return {"frozen": setters.frozen, "validate": setters.validate, "convert": setters.convert}[s]
 
 
-def field_on_arg(f):
-    on = f["onSet"]
+def hook_obj(tree, memo):
+    """a hook expression tree -> the callable: a leaf is the setter itself, a pipe node is `setters.pipe(*members)`.
+    The same written sub-expression is the same OBJECT (so a hook / a pipe object can occur repeatedly)."""
+    key = json.dumps(tree, sort_keys=True)
+    o = memo.get(key)
+    if o is None:
+        if "leaf" in tree:
+            o = setter_obj(tree["leaf"]["s"])
+        else:
+            o = setters.pipe(*[hook_obj(m, memo) for m in tree["pipe"]["l"]])
+        memo[key] = o
+    return o
+
+
+def on_arg(on, form):
+    """the `on_setattr=` argument for a written value: None / NO_OP / a bare callable (leaf) / for a pipe node at the
+    top a list, a tuple or a `setters.pipe(...)` object of its members (nested pipes are always pipe objects)"""
     if on == "unset":
         return None
     if on == "noop":
         return setters.NO_OP
-    chain = [setter_obj(s) for s in on["chain"]["l"]]
-    form = f.get("on_form", "list")
-    if len(chain) == 1 and form == "bare":
-        return chain[0]
+    tree = on["hook"]["h"]
+    memo = {}
+    if "leaf" in tree:
+        return hook_obj(tree, memo)
+    members = [hook_obj(m, memo) for m in tree["pipe"]["l"]]
     if form == "tuple":
-        return tuple(chain)
+        return tuple(members)
     if form == "pipe":
-        return setters.pipe(*chain)
-    return chain
+        return setters.pipe(*members)
+    return members
+
+
+def field_on_arg(f):
+    return on_arg(f["onSet"], f.get("on_form", "list"))
 
 
 def cls_on_arg(cs):
-    on = cs["clsOn"]
-    if on == "unset":
-        return None
-    if on == "noop":
-        return setters.NO_OP
-    if "bare" in on:
-        return setter_obj(on["bare"]["s"])
-    chain = [setter_obj(s) for s in on["list"]["l"]]
-    form = cs.get("on_form", "list")
-    if form == "tuple":
-        return tuple(chain)
-    if form == "pipe":
-        return setters.pipe(*chain)
-    return chain
+    return on_arg(cs["clsOn"], cs.get("on_form", "list"))
 
 
 def conv_kind(f):
